@@ -48,6 +48,8 @@ class Ctx:
         self.violations = []      # (case id, replay path, summary)
         self.known = []           # (finding id, case id)
         self.notes = {}
+        # one case in `spell_share` is run once more in another legal spelling (progflow.respelled); 0 = off; set by the property modules
+        self.spell_share = int(os.environ.get("VERIF_SPELL_SHARE", "0") or 0)
         self.samples = []
         self.evaluations = 0
         self.distinct = set()
